@@ -2,6 +2,7 @@
 //! positional-stream / unique-id oracles, descriptor and task accounting, fault injection.
 pub mod c01;
 pub mod c02;
+pub mod c02x;
 pub mod c03;
 pub mod c06;
 pub mod c07;
